@@ -85,9 +85,15 @@ def make_inventory_object(resource_provider, resource_class, **data):
     try:
         # NaN and (negative) infinity pass the "maximum" of the JSON schema
         # but are neither storable nor usable in the capacity arithmetic.
+        # An integer beyond the range of a float cannot be stored either.
         ratio = data.get('allocation_ratio')
-        if isinstance(ratio, float) and not math.isfinite(ratio):
-            raise ValueError('allocation_ratio must be a finite number')
+        if ratio is not None:
+            try:
+                finite = math.isfinite(float(ratio))
+            except OverflowError:
+                finite = False
+            if not finite:
+                raise ValueError('allocation_ratio must be a finite number')
         inventory = inv_obj.Inventory(
             resource_provider=resource_provider,
             resource_class=resource_class, **data)
